@@ -329,6 +329,18 @@ fn build(tier: &str) -> Cost {
     list.push((Emu::Ansi(0), "DCS macro invoke inside dcs".into(), [dcs("1;0;0!z\x1b[1*z"), dcs("2;0;0!zX\x1b[1*zY"), b"\x1b[2*z".to_vec()].concat()));
     list.push((Emu::Ansi(0), "DCS macro of REP".into(), [dcs("1;0;0!zA\x1b[2147483647b"), b"\x1b[1*z".to_vec()].concat()));
     list.push((Emu::Ansi(0), "DCS macro hex of SU".into(), [dcs("1;0;1!z!65536;1B5B3635353336533B;"), b"\x1b[1*z".to_vec()].concat()));
+    // a macro made of commands that each do a screen of work: the expansion budget counts characters of the macro, the work of one
+    // invocation has to stay bounded as well
+    for (name, cmd) in [
+        ("REP", "A\x1b[99999b"), ("IL", "\x1b[99999L"), ("DL", "\x1b[99999M"), ("ICH", "\x1b[99999@"), ("DCH", "\x1b[99999P"), ("ECH", "\x1b[99999X"), ("SD", "\x1b[99999T"), ("SU", "\x1b[99999S"),
+        ("DECFRA", "\x1b[65;1;1;9999;9999$x"), ("ED", "\x1b[2J"), ("DECERA", "\x1b[1;1;9999;9999$z"), ("LF", "\n\n\n\n\n\n\n\n"), ("CUD+LF", "\x1b[99999B\n"), ("RI", "\x1b[H\x1bM"),
+    ] {
+        let hexed: String = cmd.bytes().map(|b| format!("{b:02X}")).collect();
+        for n in [64usize, 4000, 65535] {
+            list.push((Emu::Ansi(0), format!("DCS macro hex of {name}"), [dcs(&format!("1;0;1!z!{n};{hexed};")), b"\x1b[1*z".to_vec()].concat()));
+        }
+        list.push((Emu::Ansi(0), format!("DCS macro text of {name}"), [dcs(&format!("1;0;0!z{}", cmd.replace("\x1b", "").repeat(0))), dcs(&format!("2;0;1!z{}", hexed.repeat(2000))), b"\x1b[2*z\x1b[2*z".to_vec()].concat()));
+    }
 
     // sixel headers: raster, repeat, colour registers
     for &a in &m7 {
